@@ -263,3 +263,109 @@ Proof.
   cbn [add_credentials]. rewrite last_ci_set_other; [exact G|].
   change (lower n_authorization) with l_authorization. exact C.
 Qed.
+
+(* ---------- the label the server sees is the label the switch looked at ---------- *)
+Lemma lower_content_encoding : lower n_content_encoding = l_content_encoding.
+Proof. reflexivity. Qed.
+
+Lemma get_none_of_no_ci k h : no_ci (lower k) h = true -> dict_get k h = None.
+Proof.
+  unfold no_ci. induction h as [|[k0 v0] h IH]; intro H; [reflexivity|].
+  cbn [forallb fst] in H. apply andb_true_iff in H as [A B]. apply negb_true_iff in A.
+  cbn [dict_get]. destruct (str_eqb k k0) eqn:E.
+  - apply str_eqb_eq in E. subst k0. rewrite str_eqb_refl in A. discriminate.
+  - apply IH, B.
+Qed.
+
+Lemma get_app_fresh k v pre post : no_ci (lower k) pre = true -> dict_get k (pre ++ (k, v) :: post) = Some v.
+Proof.
+  unfold no_ci. induction pre as [|[k0 v0] pre IH]; intro H.
+  - cbn. rewrite str_eqb_refl. reflexivity.
+  - cbn [forallb fst] in H. apply andb_true_iff in H as [A B]. apply negb_true_iff in A.
+    cbn [app dict_get]. destruct (str_eqb k k0) eqn:E.
+    + apply str_eqb_eq in E. subst k0. rewrite str_eqb_refl in A. discriminate.
+    + apply IH, B.
+Qed.
+
+(* with the label spelled "Content-Encoding" once (and in no other way), what a server decoding
+   by the label IT RECEIVES gets is the envelope - through any transport class, with or without
+   credentials, wherever the entry stands among any number of other headers *)
+Lemma body_fidelity_on_the_wire_l P kind c pre post v msg :
+  no_ci l_content_encoding pre = true -> no_ci l_content_encoding post = true ->
+  label_plain (Some v) = true ->
+  let h1 := add_credentials P kind c (pre ++ (n_content_encoding, v) :: post) in
+  server_decodes (dict_get l_content_encoding (u2_headers h1)) (wire_body h1 msg) = Some msg.
+Proof.
+  intros A B L h1. subst h1.
+  rewrite <- lower_content_encoding in A, B.
+  pose proof (request_header_delivered_l P kind c pre post n_content_encoding v A B eq_refl) as W.
+  rewrite lower_content_encoding in W. rewrite W.
+  pose proof (body_fidelity_l (add_credentials P kind c (pre ++ (n_content_encoding, v) :: post)) msg) as F.
+  rewrite credentials_keep_encoding_l, get_app_fresh in F by exact A.
+  apply F, L.
+Qed.
+
+Lemma last_ci_no k h d : no_ci k h = true -> last_ci k h d = d.
+Proof. apply last_ci_none. Qed.
+
+Lemma body_unlabelled_on_the_wire_l P kind c h msg :
+  no_ci l_content_encoding h = true ->
+  let h1 := add_credentials P kind c h in
+  dict_get l_content_encoding (u2_headers h1) = None /\ wire_body h1 msg = WRaw msg.
+Proof.
+  intros A h1. subst h1. split.
+  - rewrite u2_get_l. destruct kind, c as [[u|] [p|]]; cbn [add_credentials];
+      try (apply last_ci_no; exact A).
+    rewrite last_ci_set_other by reflexivity. apply last_ci_no. exact A.
+  - unfold wire_body. rewrite credentials_keep_encoding_l, get_none_of_no_ci; [reflexivity|].
+    rewrite lower_content_encoding. exact A.
+Qed.
+
+(* ---------- any header map at all: nothing but the caller's values or the defaults ---------- *)
+Lemma last_ci_two k d : forall x y,
+  last_ci k d x = last_ci k d y \/ (last_ci k d x = x /\ last_ci k d y = y).
+Proof.
+  unfold last_ci. induction d as [|[k0 v0] d IH]; intros x y; cbn [fold_left fst snd].
+  - right. split; reflexivity.
+  - destruct (str_eqb k (lower k0)); [left; reflexivity | apply IH].
+Qed.
+
+Lemma last_ci_set_cases k k1 v1 d : forall dflt,
+  (last_ci k (dict_set k1 v1 d) dflt = Some v1 /\ str_eqb k (lower k1) = true) \/
+  last_ci k (dict_set k1 v1 d) dflt = last_ci k d dflt.
+Proof.
+  induction d as [|[k0 v0] d IH]; intro dflt; cbn [dict_set].
+  - unfold last_ci. cbn [fold_left fst snd]. destruct (str_eqb k (lower k1)); [left; split; reflexivity | right; reflexivity].
+  - destruct (str_eqb k1 k0) eqn:E.
+    + apply str_eqb_eq in E. subst k0. unfold last_ci. cbn [fold_left fst snd].
+      destruct (str_eqb k (lower k1)) eqn:F; [|right; reflexivity].
+      fold (last_ci k d (Some v1)). fold (last_ci k d (Some v0)).
+      destruct (last_ci_two k d (Some v1) (Some v0)) as [H|[H _]]; [right; exact H | left; split; [exact H | reflexivity]].
+    + unfold last_ci. cbn [fold_left fst snd]. apply IH.
+Qed.
+
+Lemma update_values_l k v opts : forall d,
+  last_ci k (dict_update d opts) None = Some v ->
+  (exists k', In (k', v) opts /\ str_eqb k (lower k') = true) \/ last_ci k d None = Some v.
+Proof.
+  unfold dict_update. induction opts as [|[k1 v1] opts IH]; intros d H; [right; exact H|].
+  cbn [fold_left fst snd] in H. apply IH in H as [[k' [A B]]|H].
+  - left. exists k'. split; [right; exact A | exact B].
+  - destruct (last_ci_set_cases k k1 v1 d None) as [[X Y]|X]; rewrite X in H.
+    + left. exists k1. split; [left; congruence | exact Y].
+    + right. exact H.
+Qed.
+
+Lemma header_values_from_caller_l action opts k v :
+  dict_get k (u2_headers (soap_headers std_params action opts)) = Some v ->
+  (exists k', In (k', v) opts /\ str_eqb k (lower k') = true) \/
+  (k = l_content_type /\ v = v_text_xml_utf8) \/ (k = l_soapaction /\ v = action).
+Proof.
+  rewrite u2_get_l. unfold soap_headers. intro H. apply update_values_l in H as [H|H]; [left; exact H|].
+  right. unfold last_ci in H. cbn [fold_left fst snd std_params p_ct_name p_ct_value p_sa_name] in H.
+  change (lower n_content_type) with l_content_type in H. change (lower n_soapaction) with l_soapaction in H.
+  destruct (str_eqb k l_soapaction) eqn:S.
+  - right. apply str_eqb_eq in S. split; congruence.
+  - destruct (str_eqb k l_content_type) eqn:C; [|discriminate].
+    left. apply str_eqb_eq in C. split; congruence.
+Qed.
